@@ -1,4 +1,4 @@
-import os, sys, itertools, shutil
+import os, re, sys, itertools, shutil
 from vf import Check, Stream, hexs, sh, log, BUILD, VERIF, line_matches, run_exe_on_cases
 
 ALPHA = '-abc=x'
@@ -51,9 +51,9 @@ class C20(Check):
     id = 'C20'
     comp = 'Args'
     extracted = ['coq/Args/model.mli', 'coq/Args/model.ml', 'ocaml/zconv.ml', 'ocaml/args_driver.ml']
-    harness_sources = ['harness/args.cpp']
+    harness_sources = ['harness/args.cpp', 'harness/args_kernel.cpp']
     per_case_timeout = 20
-    level_text = ('18 Coq theorems (no axioms) about an executable model of Process.cpp (POSIX paths) that mirrors the code decision '
+    level_text = ('44 Coq theorems (no axioms) about an executable model of Process.cpp (POSIX paths) that mirrors the code decision '
                   'by decision with every forward string access going through a bounds-checked peek/advance and every backward one '
                   '(argument.attach(arg - 2, ..), attach(argName - 2, ..), attach(arg - 1, 1)) through attach_back, which answers out-of-'
                   'bounds unless the pointer stays at or behind the start of the string and the bytes handed out end at or before the '
@@ -63,55 +63,105 @@ class C20(Check):
                   'each read() on a reachable cursor performs one reference step, stays inside [string, terminator], strictly '
                   'decreases the count of unread characters, and false is final; so the loop ends within weight+1 calls. (B) '
                   'splitCommandLine equals the reference word splitter on every C string, terminates with fuel length+1 and in bounds '
-                  'on EVERY byte string (covers the loop that used to hang), and split(quote words) = words for all words not ending '
-                  'in a backslash. (C) the argv/env arrays handed to execvpe by each start/open overload are exactly executable + '
-                  'argument vector + environment given, where element 0 of a vector without its own terminating null pointer is the '
-                  'program-name slot and is filled with the executable. The model is tied to the code by running the extracted model, '
-                  'the extracted reference and the ASan/UBSan build of the working tree on the same inputs (results and the cursor '
-                  'fields idx/pos/inOpt/skipOpt compared, also for two more read() calls after the first false and for argc == 0), '
-                  'exhaustively over small alphabets.')
-    level_note = ('partial: exec itself, pipes, join()/exit status, end-of-file on redirected output, stdin bytes arriving intact and the '
-                  'environment as seen by the child are OS behaviour - validated by correspondence only (a helper child echoes argv/environ, '
-                  'copies stdin to stdout/stderr and exits with a scripted code; 8 redirection combinations x 4 launch forms, payloads '
-                  '0..64 KiB+1 (1 MiB in thorough) around the pipe capacity, exit codes 0..255; launch profiles: a second start()/open() '
-                  'through each of the four overloads on a running Process is refused with EINVAL; descriptor 0 of the parent closed '
-                  'while the process is opened; an executable that does not exist (message on the child\'s stderr, EXIT_FAILURE); every '
-                  'launch runs under its own watchdog (4 s + 4 s/MiB) that kills the child and reports `! timeout`; expected exit code, '
-                  'stream contents and error codes are computed by the driver, not in Coq). kill(), the environment setters/getters and '
-                  'daemonize are not modelled. Theorems are about the model; the tie to the code is differential. The contents of the '
-                  'bytes behind the cursor that attach_back hands out are rebuilt from the bytes read on the way (only the bounds of the '
-                  'backward access are an obligation). Contract taken from the code, not from the header (Process.hpp says only '
-                  '"argv: Arguments to the process"): start/open(executable, argc, argv) follow the main()/exec convention - argv[0] '
-                  'is the slot of the program name: it is overwritten with `executable` (POSIX: args[0] = executable; Windows: '
-                  'getCommandLine starts at argv[1]), the library\'s own command-line overloads pass the first word there, and a vector '
-                  'that ends in a null pointer counted in argc is handed over unchanged; open(executable, List) inherits this, so the '
-                  'first list element is not seen by the child. Not treated as a defect; callers that put the first real argument into '
-                  'element 0 lose it. Hypotheses of the theorems: argument strings are bytes 1..255 and option names contain no NUL '
-                  '(what a C string is); the round trip excludes words ending in a backslash (the reference quoting would escape its own '
-                  'closing quote - shown by an Example). The word-splitting reference follows the code on inputs outside the property\'s '
-                  'class "words separated by single spaces": a leading or doubled space yields an empty word, an unterminated quote is '
-                  'accepted. The model mirrors the code after the repairs in fixes/C20. Map iteration order is taken as given (C01): the '
-                  'driver sorts the environment by key before handing it to model and reference. splitCommandLine is a file-local '
-                  'function: the harness compiles Process.cpp into its own translation unit to call it directly, and also drives it '
-                  'through open/start(commandLine). Trusted: Coq kernel, the getopt/word-splitting reference (ArgsSpec.v; searched for '
-                  'disagreements with glibc getopt_long on the vectors that do not abbreviate a long option name - glibc accepts unique '
-                  'prefixes, the reference and the code accept exact names only - as a search oracle, not as a theorem), extraction + '
-                  'OCaml driver, harness, helper child.')
+                  'on EVERY byte string (covers the loop that used to hang); split(quote words) = words for all words not ending in a '
+                  'backslash, and for the words that do the result is characterised exactly (the backslash escapes the closing quote: the '
+                  'word ends in a quote character and takes in the rest of the line read in quoted mode; as last word only the last '
+                  'character changes; followed by words without quote/space characters everything merges into one word); with the quoting '
+                  'that writes trailing backslashes behind the closing quote, split(join words) = words for EVERY word list. (C) the '
+                  'argv/env arrays handed to execvpe by each start/open overload are exactly executable + argument vector + environment '
+                  'given, where element 0 of a vector without its own terminating null pointer is the program-name slot and is filled '
+                  'with the executable. (D) getEnvironmentVariable / setEnvironmentVariable / getEnvironmentVariables over ::environ '
+                  '(getenv/setenv/unsetenv transcribed from POSIX/glibc as functions on the string array) refine a finite map kept in '
+                  'key order on every environment without duplicate names, and every set keeps it duplicate-free: get is lookup, set is '
+                  'update, the empty value removes, enumeration is the sorted binding list that agrees with get on every name; names '
+                  'that are empty or contain = change nothing. (E) the Process object (pid and three descriptors with 0 = closed) '
+                  'with open/start/join/kill/close/read/write/isRunning/destructor as the code sequences them and every kernel answer '
+                  '(pipe, F_DUPFD, vfork, waitpid, read/write/select results) as an input: for ALL operation histories and ALL answers '
+                  'with pairwise different descriptors - no close() ever hits a descriptor the object does not hold (no double close, '
+                  'the descriptor-0 convention included); opened = closed + held for every descriptor (unconditionally, any answers); '
+                  'each step keeps the invariant and answers like the life-cycle reference (idle / running with a set of open streams); '
+                  'join returns WEXITSTATUS of the status the kernel delivers; join/kill/read(streams) on an object without a process '
+                  'and open/start on a running one are refused without a system call or any change; a failed waitpid changes nothing and '
+                  'can be retried; the object holds exactly one descriptor per open stream and none when idle, and after the destructor '
+                  'every descriptor handed out was closed exactly once - these last two for all histories WITHOUT the two events on '
+                  'which the code loses descriptors (vfork fails inside open; waitpid fails inside the destructor), for which the '
+                  'unconditional statement is refuted by witness. The model is tied to the code by running the extracted model, the '
+                  'extracted reference and the ASan/UBSan build of the working tree on the same inputs (results and the cursor fields '
+                  'idx/pos/inOpt/skipOpt; the raw ::environ array; the object fields, the system calls the Process code makes - '
+                  'recorded by interposing close/pipe/fcntl/waitpid/kill/read/write/select and a macro on vfork - and the number of '
+                  'open descriptors of the harness process counted in /proc/self/fd after every call), exhaustively over small scopes.')
+    level_note = ('partial: exec itself, pipes, end-of-file on redirected output, stdin bytes arriving intact and the environment as seen by '
+                  'the child are OS behaviour - validated by correspondence only (a helper child echoes argv/environ, copies stdin to '
+                  'stdout/stderr and exits with a scripted code or stays until signalled; 8 redirection combinations x 4 launch forms, '
+                  'payloads 0..64 KiB+1 (1 MiB in thorough) around the pipe capacity, exit codes 0..255; launch profiles again / fd0 / '
+                  'noexec; every launch under its own watchdog; a child started with an empty environment map after a sequence of '
+                  'setEnvironmentVariable calls echoes exactly the model\'s ::environ). What pipe/F_DUPFD/vfork/waitpid/read/write/select '
+                  'return is an INPUT of the Process-object model (the harness injects pipe, F_DUPFD, vfork and waitpid failures and '
+                  'closes the caller\'s descriptor 0; the driver supplies the same answers to the model); libc getenv/setenv/unsetenv '
+                  'are modelled (transcribed), malloc failure inside them is not. Process::wait(Process**, count) and interrupt() '
+                  'are driven (wait on one object: returns it once its child has ended, 0 when interrupted or without a child; the '
+                  'two static variables behind them, including the dummy child interrupt() starts when an earlier wait left waitState '
+                  'at 2) but not modelled in Coq: expected results are computed by the driver. join() without arguments is driven '
+                  'through the same model operation as join(exitCode). Not modelled, not driven: daemonize, exit, getCurrentProcessId, '
+                  'getExecutablePath, wait() with several processes or from a second thread. NOTED, OUTSIDE THE STATEMENT of C20 '
+                  '(real defects found in round 3, repairs declined as not contradicting the property text - fixes/C20/08..11 '
+                  '*.declined.*; the model mirrors the code AS IT IS and the oracle does not ask for more): (08) open() returns without '
+                  'closing its pipes when vfork fails - 2/4/6 descriptors lost per call; (09) setEnvironmentVariable(name, "") returns '
+                  'the int of unsetenv as bool: false when the variable was removed, true when the name was refused '
+                  '(environment_set_result); (10) read(buffer, length) / write() on a Process whose stream is not open go to '
+                  'descriptor 0 of the caller (read_write_without_stream_use_descriptor_zero); (11) the destructor ignores a failed '
+                  'join and the stream descriptors stay open (process_descriptor_leak_refuted has both witnesses). On these paths the '
+                  'reference side of the check prints a wildcard (result of an unset, result/descriptor-0 offset of read/write without '
+                  'stream, number of open descriptors for the rest of a case after a leaking event); the model side is compared exactly. '
+                  'Also noted, not driven: read(buffer, length, streams) re-enters select() after a 1000 s time-out with the descriptor '
+                  'set and the time-out both cleared by the kernel (would spin). A child ended by a signal is reported by join as '
+                  'true with exit code 0 (WEXITSTATUS of a signal status). Theorems are about the model; the tie to the code is '
+                  'differential. The contents of the bytes behind the cursor that attach_back hands out are rebuilt from the bytes read '
+                  'on the way (only the bounds of the backward access are an obligation). Contract taken from the code, not from the '
+                  'header (Process.hpp says only "argv: Arguments to the process"): start/open(executable, argc, argv) follow the '
+                  'main()/exec convention - argv[0] is the slot of the program name: it is overwritten with `executable`, the library\'s '
+                  'own command-line overloads pass the first word there, and a vector that ends in a null pointer counted in argc is '
+                  'handed over unchanged; open(executable, List) inherits this, so the first list element is not seen by the child. '
+                  'Hypotheses of the theorems: argument strings are bytes 1..255 and option names contain no NUL (what a C string is); '
+                  'the environment has no duplicate names (kept by every set; an environment handed over by exec with duplicates is '
+                  'outside); getenv with a name containing = or an empty name is outside (the generators do not ask for it); kernel '
+                  'answers of one open() are pairwise different descriptors and process ids are not 0. The word-splitting reference '
+                  'follows the code on inputs outside the property\'s class "words separated by single spaces": a leading or doubled '
+                  'space yields an empty word, an unterminated quote is accepted. The model mirrors the code after the repairs '
+                  'fixes/C20/01..07. Map iteration order and Map::insert overwriting are taken as given (C01). splitCommandLine is a '
+                  'file-local function: the harness compiles Process.cpp into its own translation unit to call it directly (which is '
+                  'also what lets a macro stand in front of vfork), and also drives it through open/start(commandLine). Trusted: Coq '
+                  'kernel, the getopt/word-splitting/map/life-cycle references (ArgsSpec.v, ProcSpec.v; getopt searched for disagreements '
+                  'with glibc getopt_long on the vectors that do not abbreviate a long option name, as a search oracle), extraction + '
+                  'OCaml driver (it also holds the expectations for wait/interrupt and for what the helper child does), harness, '
+                  'system-call recorder, helper child.')
     technique = 'Coq proof about an executable model + differential correspondence (extracted model/spec vs ASan/UBSan build)'
     rule = ('cases = (option table, argument vector) parsed to the end and twice beyond (also with argc == 0), one command line split, '
-            'or one child launch; argument vectors are exhaustive over {- a b c = x} (quick: 1 string of length <= 4, 2 of length <= 2, '
-            '3 from a token set; thorough: 1 of length <= 5, 2 of length <= 3, 3 of length <= 2) plus random tables/vectors; command '
-            'lines exhaustive over {a SP " \\} up to length 6 (quick) / 8 (thorough) plus random longer ones; launches cover the 8 '
-            'redirection combinations x {cmd, argv, argv0, list} forms x payloads around 4 KiB / 64 KiB +-1 / 1 MiB x exit codes 0..255 '
-            '(sampled in quick) x environments (also given out of key order) and the profiles again / fd0 / noexec. A parse case is '
-            'non-trivial when the implementation reported at least one option, error or two items; a split case when it produced >= 2 '
-            'words or the line contains a quote; every launch is non-trivial. distinct = distinct op text')
+            'one word list quoted and split again, one child launch, one sequence of environment operations on a given initial '
+            '::environ, or one sequence of operations on a Process object with scripted kernel failures; argument vectors are '
+            'exhaustive over {- a b c = x} (quick: 1 string of length <= 4, 2 of length <= 2, 3 from a token set; thorough: 1 of '
+            'length <= 5, 2 of length <= 3, 3 of length <= 2) plus random tables/vectors; command lines exhaustive over {a SP " \\} '
+            'up to length 6 (quick) / 8 (thorough) plus random longer ones; round trips exhaustive for single words up to length 4 / 5 '
+            'and pairs up to length 2; launches cover the 8 redirection combinations x {cmd, argv, argv0, list} forms x payloads '
+            'around 4 KiB / 64 KiB +-1 / 1 MiB x exit codes 0..255 (sampled in quick) x environments and the profiles again / fd0 / '
+            'noexec; environment: every (initial environment, name, value) of fixed pools (names with NUL, =, empty, high bytes; '
+            'values empty, with NUL, with =) plus random sequences, every third ending in a child that inherits; Process object: '
+            'every sequence of operations whose outcome is determined, to depth 1 from a new object and depth 2 after an open '
+            '(thorough: 2 and 3) with all 8 stream sets, injected pipe/F_DUPFD/vfork/waitpid failures and the caller\'s descriptor '
+            '0 closed, plus random sequences up to 9 operations. A parse case is non-trivial when the implementation reported at '
+            'least one option, error or two items; a split case when it produced >= 2 words or the line contains a quote; a round '
+            'trip when a word contains quote, backslash or space; an environment case when it sets; a Process-object case when a '
+            'process was started or a failure injected; every launch is non-trivial. distinct = distinct op text')
     assumptions = ['argument and option-name strings are C strings (no NUL inside, bytes 1..255); char is signed (x86-64 Linux)',
                    'getopt conventions as transcribed in coq/Args/ArgsSpec.v: exact long names (no abbreviations), items reported in '
                    'order of appearance, a value attached to a long flag option is an error',
                    'start/open(executable, argc, argv): argv[0] is the program-name slot (main()/exec convention) and is replaced by '
                    'the executable unless the vector carries its own terminating null pointer; open(executable, List) likewise',
-                   'Map<String,String> enumerates in key order (property C01); OS behaviour of vfork/execvpe/pipe/waitpid is not modelled']
+                   'Map<String,String> enumerates in key order and insert overwrites (property C01); getenv/setenv/unsetenv behave as '
+                   'POSIX/glibc 2.36 describe (transcribed in coq/Args/ProcModel.v, compared with libc on every environment case); '
+                   '::environ has no duplicate names',
+                   'the kernel hands out descriptors that are not open (pairwise different within one open()), pids are not 0; what '
+                   'vfork/execvpe/pipe/waitpid/select do is an input of the model or validated by correspondence, not modelled']
 
     # ---- build: also the helper child --------------------------------------------------------
     def build(self):
@@ -160,7 +210,46 @@ class C20(Check):
         if last.startswith('split'):
             h = last.split()[1]
             return any(l.startswith('words') and int(l.split()[1]) >= 2 for l in obs) or (h != '-' and b'"' in bytes.fromhex(h))
+        if last.startswith('rt '):
+            return any(ch in bytes.fromhex(h) for h in last.split()[2:] if h != '-' for ch in b'"\\ ') if len(last.split()) > 2 else False
+        if case and case[0].startswith('@E'):
+            return any(l.split()[1:2] == ['set'] for l in obs)
+        if case and case[0].startswith('@P'):
+            return any(l.split()[1:3] in (['popen', '1'], ['pstart', '1']) or 'fail' in l for l in obs)
         return last.startswith('launch')
+
+
+    # One report per defect: vf groups failing cases by the first 80 characters of the reason (digits -> N), so the
+    # reason starts with a tag of constant text that names WHAT is wrong (not the data), padded to 80 characters.
+    def judge(self, cases, impl_obs, spec_obs):
+        fails = []
+        for (i, k, reason) in super().judge(cases, impl_obs, spec_obs):
+            exp = ['#'] + (spec_obs[i][k].split() if k < len(spec_obs[i]) else [])     # observation lines carry no case number here
+            got = ['#'] + (impl_obs[i][k].split() if k < len(impl_obs[i]) else [])
+            tag = None
+            if len(exp) >= 2 and exp[1] in ('set', 'get', 'vars', 'child'):
+                tag = 'environment: ' + {'set': 'result of setEnvironmentVariable', 'get': 'value from getEnvironmentVariable',
+                                         'vars': 'enumeration by getEnvironmentVariables', 'child': 'environment inherited by a child'}[exp[1]]
+            elif len(exp) >= 11 and exp[1][:1] == 'p' and len(got) >= 11:
+                what = {2: 'result', 4: 'isRunning', 6: 'open descriptors of the process', 8: 'close() of a descriptor not held',
+                        10: 'bytes moved on descriptor zero of the caller'}
+                d = next((j for j in (2, 4, 6, 8, 10) if exp[j] != '?' and exp[j] != got[j]), None)
+                if d is not None:
+                    tag = 'Process object: %s after %s' % (what[d], {'popen': 'open', 'pstart': 'start', 'pjoin': 'join', 'pjoin0': 'join()',
+                                                                      'pkill': 'kill', 'pdel': 'the destructor', 'pclose': 'close',
+                                                                      'pread': 'read(buffer, length)', 'pread2': 'read(buffer, length, streams)',
+                                                                      'pwrite': 'write', 'prun': 'isRunning', 'pwait': 'wait',
+                                                                      'pintr': 'interrupt'}.get(exp[1], exp[1]))
+            if tag:
+                if len(exp) >= 11 and exp[1] == 'popen':
+                    # which kernel answer was injected on the open whose observation differs (k-th observation line = k-th observing op)
+                    opl = [l for l in cases[i] if l[:1] == 'p' and not l.startswith('psig')]
+                    fl = sorted(set(re.sub(r'\d', '', f) for f in (opl[k].split()[2:] if k < len(opl) else [])))
+                    tag = tag.rstrip() + (' with ' + '+'.join(fl) if fl else '')
+                reason = (tag + ': ').ljust(80) + reason
+            fails.append((i, k, reason))
+        fails.sort(key=lambda f: sum(len(l) for l in cases[f[0]]))
+        return fails
 
     # ---- generators --------------------------------------------------------------------------
     def rand_vec(self, rng, n):
@@ -248,6 +337,155 @@ class C20(Check):
             cases.append(one('open', 'argv', 1, code, 0, 0, code, CHILD, ['zero']))
         return cases
 
+
+    # ---- round 3: quoting round trip, environment machine, Process object machine ----------------
+    @staticmethod
+    def join_words_bs(words):
+        """ArgsSpec.join_words_bs: quote every word; the backslashes a word ends in go behind the closing quote."""
+        out = []
+        for w in words:
+            k = len(w) - len(w.rstrip('\\'))
+            body = w[:len(w) - k]
+            out.append('"' + body.replace('"', '\\"') + '"' + '\\' * k)
+        return ' '.join(out)
+
+    def rt_case(self, words):
+        return ['rt ' + hx(self.join_words_bs(words)) + ''.join(' ' + hx(w) for w in words)]
+
+    ENV_NAMES = ['A', 'B', 'AB', 'a', 'PATH', 'A\x00x', 'Z=Z', '', '=', '\x00A', 'LONG_' + 'n' * 40, '\xc8']
+    ENV_VALUES = ['', '1', 'v=w', 'x\x00y', '\x00', ' sp ace ', 'v' * 70, '\xff\x01']
+    ENV_STARTS = [[], ['A=1'], ['B=2', 'A=1', 'junk', 'C='], ['=x', 'A=1', 'AB=3'], ['PATH=/x:/y', 'a=low', 'A=up', 'B=', 'nokey'],
+                  ['\xc8=hi', 'A==', 'B=b=c']]
+
+    def env_case(self, rng, start, nops, child):
+        ops = ['@E'] + ['ev ' + hx(e) for e in start]
+        good = [n for n in self.ENV_NAMES if n.split('\x00')[0] and '=' not in n.split('\x00')[0]]
+        for _ in range(nops):
+            r = rng.random()
+            if r < 0.45:
+                ops.append('eset %s %s' % (hx(rng.choice(self.ENV_NAMES)), hx(rng.choice(self.ENV_VALUES))))
+            elif r < 0.85:
+                ops.append('eget %s %s' % (hx(rng.choice(good)), hx(rng.choice(['', 'dflt']))))
+            else:
+                ops.append('evars')
+        ops.append('evars')
+        if child:
+            ops.append('echild')
+        return ops
+
+    POBJ_INJECT = ['', '', '', ' vforkfail', ' pipefail1', ' pipefail2', ' pipefail3', ' fd0', ' fd0 dupfail', ' fd0 vforkfail']
+
+    def pobj_moves(self, st):
+        """the operations whose outcome is determined in abstract state st = (running, out, err, inn, child, outread, intr)
+        child: 'exits' (ends by itself), 'paused' (alive until signalled), 'dying' (signalled)"""
+        running, out, err, inn, child, outread, intr = st
+        m = ['prun', 'pclose 7', 'pclose 1', 'pclose 2', 'pclose 4', 'pclose 5', 'pjoin waitfail', 'pjoin0 waitfail',
+             'pkill waitfail' if (not running or child != 'exits') else None, 'pintr']
+        for sfx in self.POBJ_INJECT:
+            m += ['popen %d%s' % (sm, sfx) for sm in range(8)]
+        m += ['pstart', 'pstart vforkfail']
+        # Process::wait: a pending interrupt is answered at once; otherwise it needs a child that ends (or none at all)
+        if intr or not running or child in ('exits', 'dying'):
+            m.append('pwait')
+        if not running:
+            m += ['pjoin', 'pjoin0', 'pkill', 'pread', 'pwrite 5', 'pread2 3', 'pread2 1', 'pread2 2']
+        else:
+            if child in ('exits', 'dying'):
+                m += ['pjoin', 'pjoin0']
+            if child in ('paused', 'dying'):
+                m.append('pkill')
+            if child == 'paused':
+                m += ['psig 15', 'psig 2', 'psig 9']
+            # the child's header is there to be read unless a signal may have hit the child before it wrote it;
+            # without the stream read(buffer, length) goes to descriptor 0 (noted) - determined as well
+            if not out or (not outread and child != 'dying'):
+                m.append('pread')
+            if not inn or child == 'paused':
+                m += ['pwrite 5', 'pwrite 4096']
+            for sm in (1, 2, 3):
+                so, se = out and sm & 1, err and sm & 2
+                if not so and not se:
+                    m.append('pread2 %d' % sm)
+                elif so:
+                    if not outread and child != 'dying':
+                        m.append('pread2 %d' % sm)
+                elif child in ('exits', 'dying'):
+                    m.append('pread2 %d' % sm)
+        return [x for x in m if x]
+
+    def pobj_next(self, st, op, mode):
+        running, out, err, inn, child, outread, intr = st
+        t = op.split()
+        o = t[0]
+        base = 'paused' if mode & 4 else 'exits'
+        if o == 'pintr':
+            return (running, out, err, inn, child, outread, True)
+        if o == 'pwait':
+            return (running, out, err, inn, child, outread, False)
+        if o in ('popen', 'pstart') and not running:
+            if any(f.startswith('pipefail') and int(f[8:]) <= bin(int(t[1]) & 7).count('1') for f in t[2:] if o == 'popen') \
+               or 'vforkfail' in t or ('dupfail' in t and o == 'popen' and int(t[1]) & 7):
+                return st
+            sm = int(t[1]) if o == 'popen' else 0
+            return (True, bool(sm & 1), bool(sm & 2), bool(sm & 4), base, False, intr)
+        if not running:
+            return st
+        if o == 'pclose':
+            sm = int(t[1])
+            return (running, out and not sm & 1, err and not sm & 2, inn and not sm & 4, child, outread, intr)
+        if o == 'psig':
+            return (running, out, err, inn, 'dying', outread, intr)
+        if o == 'pkill' and 'waitfail' in t:
+            return (running, out, err, inn, 'dying', outread, intr)
+        if o in ('pjoin', 'pjoin0', 'pkill') and 'waitfail' not in t:
+            return (False, False, False, False, base, False, intr)
+        if o == 'pread' and out:
+            return (running, out, err, inn, child, True, intr)
+        if o == 'pread2' and out and int(t[1]) & 1:
+            return (running, out, err, inn, child, True, intr)
+        return st
+
+    def pobj_finish(self, ops, st):
+        running, out, err, inn, child, outread, intr = st
+        if running and child == 'paused':
+            ops.append('pdel waitfail' if len(ops) % 2 else 'pkill')
+            if ops[-1] == 'pkill':
+                ops.append('pdel')
+        else:
+            ops.append('pdel')
+        return ops
+
+    def pobj_rand_case(self, rng, n):
+        mode = rng.choice([0, 4, 4])
+        st = (False, False, False, False, 'paused' if mode else 'exits', False, False)
+        ops = ['@P %d %d' % (rng.randrange(256), mode)]
+        for _ in range(n):
+            mv = self.pobj_moves(st)
+            # mostly: get a process running first
+            if not st[0] and rng.random() < 0.6:
+                mv = [x for x in mv if x.startswith('popen') or x.startswith('pstart')]
+            op = rng.choice(mv)
+            ops.append(op)
+            st = self.pobj_next(st, op, mode)
+        return self.pobj_finish(ops, st)
+
+    def pobj_exhaustive(self, depth, mode, code):
+        """every sequence of determined operations up to the given depth after one open (all 8 stream sets, injections on the first)"""
+        out = []
+        st0 = (False, False, False, False, 'paused' if mode else 'exits', False, False)
+        def rec(ops, st, d, first):
+            out.append(self.pobj_finish(list(ops), st))
+            if d == 0:
+                return
+            for mv in self.pobj_moves(st):
+                if mv.startswith('popen') and (len(mv.split()) > 2 and st[0]):
+                    continue            # injections on a refused open change nothing
+                if mv.startswith('popen') and not first and mv not in ('popen 7', 'popen 0', 'popen 2 vforkfail', 'popen 5 fd0'):
+                    continue            # all stream sets and injections on the first move only
+                rec(ops + [mv], self.pobj_next(st, mv, mode), d - 1, False)
+        rec(['@P %d %d' % (code, mode)], st0, depth, True)
+        return out
+
     def streams(self, tier, rng):
         thorough = tier == 'thorough'
         out = []
@@ -282,6 +520,55 @@ class C20(Check):
         out.append(Stream('split_rand', cases))
         out.append(Stream('launch', self.launch_cases(rng, thorough),
                           note='8 redirection combinations x forms; payloads around the pipe capacity; exit codes'))
+        # round trip through the quoting function for all words (trailing backslashes included)
+        wal = 'a "\\'
+        ws1 = strings_upto(wal, 5 if thorough else 4)
+        ws2 = strings_upto(wal, 2)
+        out.append(Stream('split_rt', [self.rt_case([w]) for w in ws1] + [self.rt_case([u, v]) for u in ws2 for v in ws2] +
+                          [self.rt_case([rng.choice(ws1) for _ in range(rng.randrange(0, 6))]) for _ in range(1500 if thorough else 300)],
+                          note='split(join(words)) = words for every word list: single words up to length %d and pairs up to length 2 over '
+                               '{a SP " \\} exhaustively, longer lists at random' % (5 if thorough else 4)))
+        # environment machine
+        cases = []
+        for start in self.ENV_STARTS:
+            for name in self.ENV_NAMES:
+                for value in self.ENV_VALUES[:6]:
+                    g = [n for n in ('A', 'B', name) if n.split('\x00')[0] and '=' not in n.split('\x00')[0]]
+                    cases.append(['@E'] + ['ev ' + hx(e) for e in start] + ['eset %s %s' % (hx(name), hx(value))] +
+                                 ['eget %s %s' % (hx(n), hx('d')) for n in g] + ['evars'])
+        out.append(Stream('env_ex', cases, exhaustive=True,
+                          note='every (initial environment, name, value) of the pools: one set, then get of the name and two others, then enumeration'))
+        out.append(Stream('env_rand', [self.env_case(rng, rng.choice(self.ENV_STARTS), rng.randrange(1, 8), i % 3 == 0)
+                                       for i in range(900 if thorough else 240)],
+                          note='random set/get/enumerate sequences; every third case ends by starting a child with an empty environment map'))
+        # Process object machine
+        cases = []
+        for mode in (4, 0):
+            cases += self.pobj_exhaustive(2 if thorough else 1, mode, 5 + mode)
+        first = [c for c in cases]
+        deeper = []
+        for sm, dp in (((7, 3), (1, 2), (0, 2), (6, 2)) if thorough else ((7, 2), (1, 2))):
+            for mode in (4, 0):
+                st = (True, bool(sm & 1), bool(sm & 2), bool(sm & 4), 'paused' if mode else 'exits', False, False)
+                sub = []
+                def rec(ops, st, d):
+                    sub.append(self.pobj_finish(list(ops), st))
+                    if d == 0:
+                        return
+                    for mv in self.pobj_moves(st):
+                        if mv.startswith('popen') and len(mv.split()) > 2:
+                            continue
+                        if mv.startswith('popen') and mv != 'popen 7':
+                            continue
+                        rec(ops + [mv], self.pobj_next(st, mv, mode), d - 1)
+                rec(['@P %d %d' % (40 + sm, mode), 'popen %d' % sm], st, dp)
+                deeper += sub
+        out.append(Stream('pobj_ex', first + deeper, exhaustive=True,
+                          note='every sequence of operations with a determined outcome: depth %d from a new object (all stream sets and injected '
+                               'failures), depth %s after a successful open; both child scripts (ends by itself / stays until signalled)' %
+                               ((2, '3 (all three streams) / 2') if thorough else (1, 2))))
+        out.append(Stream('pobj_rand', [self.pobj_rand_case(rng, rng.randrange(1, 9)) for _ in range(2500 if thorough else 500)],
+                          note='random operation sequences on one Process object, kernel failures injected (pipe, F_DUPFD, vfork, waitpid)'))
         return out
 
     # ---- glibc getopt_long as an additional search oracle for the reference -----------------------
